@@ -46,7 +46,7 @@ impl Vm {
         let mut lambda = Lambda::new_from_iof(vec![], vec![], &entry_lambda, &[], false);
         lambda.set_top_level();
         lambda.emit(OpCode::Enter);
-        self.compile(&mut lambda, true, expr)?;
+        self.compile_top_level(&mut lambda, true, expr)?;
         lambda.emit(OpCode::Ret);
         trace!("main: \n{}", self.decompile_text(&lambda));
         let lambda = self.heap.put(lambda);
@@ -58,6 +58,50 @@ impl Vm {
         entry_lambda.emit(OpCode::CallAcc);
         entry_lambda.emit(OpCode::Halt);
         Ok(entry_lambda)
+    }
+
+    /// Compile Top Level
+    ///
+    /// Compile a form at the outermost level. A begin form there is spliced
+    /// (R7RS 4.2.3): its forms are evaluated as if the enclosing begin were not
+    /// present, so the definitions in it are top-level definitions.
+    fn compile_top_level(
+        &mut self,
+        lambda: &mut Lambda,
+        tail: bool,
+        expr: &Cell,
+    ) -> Result<(), Error> {
+        if let Cell::Pair(keyword, forms) = expr {
+            if **keyword == Cell::new_symbol("begin")
+                && forms.is_pair()
+                && forms.is_list()
+                && self.is_macro(keyword)?
+            {
+                let mut forms = &**forms;
+                while forms.is_pair() {
+                    let last = cdr!(forms).is_nil();
+                    self.compile_top_level(lambda, tail && last, car!(forms))?;
+                    forms = cdr!(forms);
+                }
+                return Ok(());
+            }
+        }
+        self.compile(lambda, tail, expr)
+    }
+
+    /// Is Macro
+    ///
+    /// True if the symbol is globally bound to a macro.
+    fn is_macro(&mut self, symbol: &Cell) -> Result<bool, Error> {
+        let sym = match self.heap.get_sym_ref(symbol) {
+            Some(sym) => sym,
+            None => return Ok(false),
+        };
+        Ok(match self.globenv.get(sym.as_ptr()?) {
+            Some(VCell::Ptr(ptr)) => matches!(self.heap.get_at_index(ptr), VCell::Macro(_)),
+            Some(VCell::Macro(_)) => true,
+            _ => false,
+        })
     }
 
     /// Compile
